@@ -28,15 +28,15 @@ theorem runK_add (c : Cfg) (tbl : Table) (a b : Nat) (s s' s'' : MS) (h1 : runK 
 /-- the recursive (hide-set style) reference for object-like tables: `D` = names disabled in the current context,
     `d` = nesting budget; a disabled or already painted identifier is painted, a macro name is replaced by the
     expansion of its replacement list with that name disabled, everything else is copied -/
-def E (tbl : Table) : Nat → List String → List Tok → List Tok
+def E (tbl : Table) : Nat → NoExp → List Tok → List Tok
   | _, _, [] => []
   | 0, D, t :: ts => t :: E tbl 0 D ts
   | d + 1, D, t :: ts =>
     if t.kind != .ident then t :: E tbl (d + 1) D ts
-    else if !t.expandable || D.contains t.text then paint t :: E tbl (d + 1) D ts
+    else if !t.expandable || D.contains (some t.text) then paint t :: E tbl (d + 1) D ts
     else match tbl.get t.text with
       | none => t :: E tbl (d + 1) D ts
-      | some m => E tbl d (m.name :: D) (fixpw m.replacement t.pw) ++ E tbl (d + 1) D ts
+      | some m => E tbl d (some m.name :: D) (fixpw m.replacement t.pw) ++ E tbl (d + 1) D ts
 termination_by d _ ts => (d, ts.length)
 
 /-! list bookkeeping -/
@@ -54,11 +54,12 @@ theorem set_mid (pre ts : List Tok) (t : Tok) (x : Option Tok) :
 
 theorem len_mid (pre ts : List Tok) (t : Tok) : pre.length < ((pre ++ t :: ts).map some).length := by simp
 
-def Stable (tbl : Table) (D : List String) (t : Tok) : Prop :=
-  t.kind ≠ .ident ∨ (t.text ≠ "defined" ∧ (t.expandable = false ∨ (tbl.get t.text = none ∧ D.contains t.text = false)))
+def Stable (tbl : Table) (D : NoExp) (t : Tok) : Prop :=
+  t.kind ≠ .ident ∨ (t.text ≠ "defined" ∧ (t.expandable = false ∨ (tbl.get t.text = none ∧ D.contains (some t.text) = false)))
 
-/-- re-scanning already expanded tokens is the identity -/
-theorem rescan (c : Cfg) (tbl : Table) (F : List Frame) : ∀ (R pre ts' : List Tok) (S : List Helper) (pr : Bool) (D : List String),
+/-- re-scanning already expanded tokens is the identity (any `Cfg`; the machine before the repair of D11 relied on it, the
+    repaired `splice` moves past the spliced tokens and no longer needs it) -/
+theorem rescan (c : Cfg) (tbl : Table) (F : List Frame) : ∀ (R pre ts' : List Tok) (S : List Helper) (pr : Bool) (D : NoExp),
     (∀ t ∈ R, Stable tbl D t) →
     runK c tbl R.length ⟨⟨(pre ++ (R ++ ts')).map some, pre.length, pr⟩ :: S, D, F, none⟩
       = some ⟨⟨(pre ++ (R ++ ts')).map some, pre.length + R.length, pr⟩ :: S, D, F, none⟩ := by
@@ -92,13 +93,13 @@ theorem rescan (c : Cfg) (tbl : Table) (F : List Frame) : ∀ (R pre ts' : List 
         · simp [hk]
         · have hd' : (t.text == "defined") = false := by simpa using hd
           simp only [hk, Bool.false_eq_true, if_false, hd']
-          by_cases hq : (!t.expandable || D.contains t.text) = true
+          by_cases hq : (!t.expandable || D.contains (some t.text)) = true
           · simp only [hq, if_true]
             have hp : t.expandable = false := by
               simp only [hnd, Bool.or_false, Bool.not_eq_true'] at hq; exact hq
             have : paint t = t := by cases t; simp_all [paint]
             rw [this, set_mid]; simp
-          · have hq' : (!t.expandable || D.contains t.text) = false := by simpa using hq
+          · have hq' : (!t.expandable || D.contains (some t.text)) = false := by simpa using hq
             simp only [hq', Bool.false_eq_true, if_false, hn]
     rw [hiter]
     have e1 : pre.length + 1 + R.length = pre.length + (R.length + 1) := by omega
@@ -125,16 +126,16 @@ theorem noDef_fixpw (r : List Tok) (pw : Bool) (h : NoDef r) : NoDef (fixpw r pw
     · exact h t (by simp [ht])
 
 /-- the depth budget `d` is never exhausted while a macro still has to be expanded -/
-def Fits (tbl : Table) : Nat → List String → List Tok → Prop
+def Fits (tbl : Table) : Nat → NoExp → List Tok → Prop
   | _, _, [] => True
   | 0, _, _ :: _ => False
   | d + 1, D, t :: ts =>
     Fits tbl (d + 1) D ts ∧
-    (t.kind = .ident → (!t.expandable || D.contains t.text) = false →
-      ∀ m, tbl.get t.text = some m → Fits tbl d (m.name :: D) (fixpw m.replacement t.pw))
+    (t.kind = .ident → (!t.expandable || D.contains (some t.text)) = false →
+      ∀ m, tbl.get t.text = some m → Fits tbl d (some m.name :: D) (fixpw m.replacement t.pw))
 termination_by d _ ts => (d, ts.length)
 
-theorem stable_weaken (tbl : Table) (n : String) (D : List String) (t : Tok) (h : Stable tbl (n :: D) t) : Stable tbl D t := by
+theorem stable_weaken (tbl : Table) (n : Option String) (D : NoExp) (t : Tok) (h : Stable tbl (n :: D) t) : Stable tbl D t := by
   rcases h with h | ⟨hd, h | ⟨hn, hc⟩⟩
   · exact .inl h
   · exact .inr ⟨hd, .inl h⟩
@@ -142,7 +143,7 @@ theorem stable_weaken (tbl : Table) (n : String) (D : List String) (t : Tok) (h 
     simp only [List.contains_cons, Bool.or_eq_false_iff] at hc
     exact hc.2
 
-theorem E_stable (tbl : Table) (hT : TblOK tbl) : ∀ (d : Nat) (D : List String) (ts : List Tok),
+theorem E_stable (tbl : Table) (hT : TblOK tbl) : ∀ (d : Nat) (D : NoExp) (ts : List Tok),
     NoDef ts → Fits tbl d D ts → ∀ t ∈ E tbl d D ts, Stable tbl D t := by
   intro d
   induction d with
@@ -168,12 +169,12 @@ theorem E_stable (tbl : Table) (hT : TblOK tbl) : ∀ (d : Nat) (D : List String
         · exact .inl (by simpa using hk)
         · exact iha hnd' hf1 t ht
       · simp only [hk, Bool.false_eq_true, if_false] at ht
-        by_cases hq : (!a.expandable || D.contains a.text) = true
+        by_cases hq : (!a.expandable || D.contains (some a.text)) = true
         · simp only [hq, if_true, List.mem_cons] at ht
           rcases ht with rfl | ht
           · exact .inr ⟨by simpa [paint] using ha, .inl rfl⟩
           · exact iha hnd' hf1 t ht
-        · have hq' : (!a.expandable || D.contains a.text) = false := by simpa using hq
+        · have hq' : (!a.expandable || D.contains (some a.text)) = false := by simpa using hq
           simp only [hq', Bool.false_eq_true, if_false] at ht
           cases hm : tbl.get a.text with
           | none =>
@@ -187,7 +188,7 @@ theorem E_stable (tbl : Table) (hT : TblOK tbl) : ∀ (d : Nat) (D : List String
             simp only [hm, List.mem_append] at ht
             rcases ht with ht | ht
             · have hki : a.kind = .ident := by simpa using hk
-              have := ihd (m.name :: D) (fixpw m.replacement a.pw) (noDef_fixpw _ _ (hT.noDef _ _ hm)) (hf2 hki hq' m hm) t ht
+              have := ihd (some m.name :: D) (fixpw m.replacement a.pw) (noDef_fixpw _ _ (hT.noDef _ _ hm)) (hf2 hki hq' m hm) t ht
               exact stable_weaken tbl _ D t this
             · exact iha hnd' hf1 t ht
 
@@ -205,9 +206,9 @@ theorem drop_hole {α} (pre : List α) (x : α) (as : List α) : (pre ++ x :: as
   | nil => simp
   | cons p ps ih => simpa using ih
 
-theorem splice_hole (pre as R : List Tok) (pr : Bool) :
-    splice false ⟨pre.map some ++ none :: as.map some, pre.length + 1, pr⟩ ⟨R.map some, R.length, false⟩
-      = ⟨(pre ++ (R ++ as)).map some, pre.length, pr⟩ := by
+theorem splice_hole (adv : Bool) (pre as R : List Tok) (pr : Bool) :
+    splice adv ⟨pre.map some ++ none :: as.map some, pre.length + 1, pr⟩ ⟨R.map some, R.length, false⟩
+      = ⟨(pre ++ (R ++ as)).map some, if adv then pre.length + R.length else pre.length, pr⟩ := by
   have h1 : (pre.map some ++ none :: as.map some).take (pre.length + 1) = pre.map some ++ [none] := by
     have := take_hole (pre.map some) none (as.map some); simpa using this
   have h2 : (pre.map some ++ none :: as.map some).drop (pre.length + 1) = as.map some := by
@@ -224,7 +225,7 @@ theorem fixpw_length (r : List Tok) (pw : Bool) : (fixpw r pw).length = r.length
 theorem Lb_pos (B d : Nat) : 1 ≤ Lb B d := by cases d <;> simp [Lb]
 theorem Cb_pos (B d : Nat) : 1 ≤ Cb B d := by cases d <;> simp [Cb]
 
-theorem E_length (tbl : Table) (B : Nat) (hB : BodiesLe tbl B) : ∀ (d : Nat) (D : List String) (ts : List Tok),
+theorem E_length (tbl : Table) (B : Nat) (hB : BodiesLe tbl B) : ∀ (d : Nat) (D : NoExp) (ts : List Tok),
     (E tbl d D ts).length ≤ ts.length * Lb B d := by
   intro d
   induction d with
@@ -244,23 +245,26 @@ theorem E_length (tbl : Table) (B : Nat) (hB : BodiesLe tbl B) : ∀ (d : Nat) (
       by_cases hk : (a.kind != TKind.ident) = true
       · simp only [hk, if_true, List.length_cons]; omega
       · simp only [hk, Bool.false_eq_true, if_false]
-        by_cases hq : (!a.expandable || D.contains a.text) = true
+        by_cases hq : (!a.expandable || D.contains (some a.text)) = true
         · simp only [hq, if_true, List.length_cons]; omega
         · simp only [hq, Bool.false_eq_true, if_false]
           cases hm : tbl.get a.text with
           | none => simp only [List.length_cons]; omega
           | some m =>
             simp only [List.length_append, List.length_cons]
-            have h1 := ihd (m.name :: D) (fixpw m.replacement a.pw)
+            have h1 := ihd (some m.name :: D) (fixpw m.replacement a.pw)
             rw [fixpw_length] at h1
             have h2 : m.replacement.length * Lb B d ≤ B * Lb B d := Nat.mul_le_mul_right _ (hB _ _ hm)
             have h3 : Lb B (d + 1) = B * Lb B d + 1 := rfl
             omega
 
 /-- **C03 (object-like fragment)**: from a stream positioned at `ts`, the stack machine reaches the stream in which `ts`
-    has been replaced by its recursive expansion, leaving everything else (prefix, lower streams, disabled names) as it was. -/
-theorem sim (c : Cfg) (hc : c.adv = false) (tbl : Table) (hT : TblOK tbl) (B : Nat) (hB : BodiesLe tbl B) (F : List Frame) :
-    ∀ (d : Nat) (D : List String) (ts pre : List Tok) (S : List Helper) (pr : Bool),
+    has been replaced by its recursive expansion, leaving everything else (prefix, lower streams, disabled names) as it was.
+    Stated for every `Cfg`: with the repaired `splice` (`adv = true`) the exhausted child stream is spliced in and the read
+    position is behind it; the machine before the repair (`adv = false`) re-scanned the spliced tokens, which is the identity
+    on them (`rescan`). -/
+theorem sim (c : Cfg) (tbl : Table) (hT : TblOK tbl) (B : Nat) (hB : BodiesLe tbl B) (F : List Frame) :
+    ∀ (d : Nat) (D : NoExp) (ts pre : List Tok) (S : List Helper) (pr : Bool),
     NoDef ts → Fits tbl d D ts → S.length + d + 1 < c.lim →
     ∃ k, k ≤ ts.length * Cb B d ∧ runK c tbl k ⟨⟨(pre ++ ts).map some, pre.length, pr⟩ :: S, D, F, none⟩
       = some ⟨⟨(pre ++ E tbl d D ts).map some, (pre ++ E tbl d D ts).length, pr⟩ :: S, D, F, none⟩ := by
@@ -304,12 +308,12 @@ theorem sim (c : Cfg) (hc : c.adv = false) (tbl : Table) (hT : TblOK tbl) (B : N
         · rw [E]; simp only [hk, if_true]
         · simp only [step, hnl, if_false, hidx, hk, if_true]; simp
       · have hk' : (a.kind != TKind.ident) = false := by simpa using hk
-        by_cases hq : (!a.expandable || D.contains a.text) = true
+        by_cases hq : (!a.expandable || D.contains (some a.text)) = true
         · apply advance (paint a)
           · rw [E]; simp only [hk', Bool.false_eq_true, if_false, hq, if_true]
           · simp only [step, hnl, if_false, hidx, hk', Bool.false_eq_true, hd', hq, if_true, set_mid]
             simp
-        · have hq' : (!a.expandable || D.contains a.text) = false := by simpa using hq
+        · have hq' : (!a.expandable || D.contains (some a.text)) = false := by simpa using hq
           cases hm : tbl.get a.text with
           | none =>
             apply advance a
@@ -320,36 +324,41 @@ theorem sim (c : Cfg) (hc : c.adv = false) (tbl : Table) (hT : TblOK tbl) (B : N
             have hki : a.kind = .ident := by simpa using hk
             have hfit := hf2 hki hq' m hm
             -- the expansion of the macro body in a child stream
-            let R := E tbl d (m.name :: D) (fixpw m.replacement a.pw)
+            let R := E tbl d (some m.name :: D) (fixpw m.replacement a.pw)
             have hE : E tbl (d + 1) D (a :: as) = R ++ E tbl (d + 1) D as := by
               rw [E]; simp only [hk', Bool.false_eq_true, if_false, hq', hm, R]
             -- step 1: push the child
             have hpush : step c tbl ⟨⟨(pre ++ a :: as).map some, pre.length, pr⟩ :: S, D, F, none⟩
                 = .cont ⟨⟨(fixpw m.replacement a.pw).map some, 0, false⟩ ::
-                    ⟨pre.map some ++ none :: as.map some, pre.length + 1, pr⟩ :: S, m.name :: D, F, none⟩ := by
+                    ⟨pre.map some ++ none :: as.map some, pre.length + 1, pr⟩ :: S, some m.name :: D, F, none⟩ := by
               have hov : ¬ (S.length + 2 ≥ c.lim) := by omega
               simp only [step, hnl, if_false, hidx, hk', Bool.false_eq_true, hd', hq', hm, hobj, hov, set_mid]
             -- step 2: run the child to completion
-            obtain ⟨k1, hk1b, hk1⟩ := ihd (m.name :: D) (fixpw m.replacement a.pw) [] (⟨pre.map some ++ none :: as.map some, pre.length + 1, pr⟩ :: S) false
+            obtain ⟨k1, hk1b, hk1⟩ := ihd (some m.name :: D) (fixpw m.replacement a.pw) [] (⟨pre.map some ++ none :: as.map some, pre.length + 1, pr⟩ :: S) false
               (noDef_fixpw _ _ (hT.noDef _ _ hm)) hfit (by simp; omega)
             simp only [List.nil_append, List.length_nil] at hk1
             -- step 3: the exhausted child is spliced into the stream below
-            have hpop : step c tbl ⟨⟨R.map some, R.length, false⟩ :: ⟨pre.map some ++ none :: as.map some, pre.length + 1, pr⟩ :: S, m.name :: D, F, none⟩
-                = .cont ⟨⟨(pre ++ (R ++ as)).map some, pre.length, pr⟩ :: S, D, F, none⟩ := by
+            have hpop : step c tbl ⟨⟨R.map some, R.length, false⟩ :: ⟨pre.map some ++ none :: as.map some, pre.length + 1, pr⟩ :: S, some m.name :: D, F, none⟩
+                = .cont ⟨⟨(pre ++ (R ++ as)).map some, if c.adv then pre.length + R.length else pre.length, pr⟩ :: S, D, F, none⟩ := by
               have : R.length ≥ (R.map some).length := by simp
-              simp only [step, this, if_true, Bool.false_eq_true, if_false, hc, splice_hole, List.tail_cons]
-            -- step 4: rescanning the spliced tokens changes nothing
+              simp only [step, this, if_true, Bool.false_eq_true, if_false, splice_hole, List.tail_cons]
+            -- step 4 (only the machine before the repair of D11): rescanning the spliced tokens changes nothing
             have hstab : ∀ t ∈ R, Stable tbl D t := fun t ht =>
-              stable_weaken tbl _ D t (E_stable tbl hT d (m.name :: D) _ (noDef_fixpw _ _ (hT.noDef _ _ hm)) hfit t ht)
-            have hres := rescan c tbl F R pre as S pr D hstab
+              stable_weaken tbl _ D t (E_stable tbl hT d (some m.name :: D) _ (noDef_fixpw _ _ (hT.noDef _ _ hm)) hfit t ht)
+            have hres : ∃ k4, k4 ≤ R.length ∧ runK c tbl k4 ⟨⟨(pre ++ (R ++ as)).map some, if c.adv then pre.length + R.length else pre.length, pr⟩ :: S, D, F, none⟩
+                = some ⟨⟨(pre ++ (R ++ as)).map some, pre.length + R.length, pr⟩ :: S, D, F, none⟩ := by
+              cases hadv : c.adv with
+              | true => exact ⟨0, by omega, by simp [runK]⟩
+              | false => exact ⟨R.length, Nat.le_refl _, by simpa using rescan c tbl F R pre as S pr D hstab⟩
+            obtain ⟨k4, hk4b, hk4⟩ := hres
             -- step 5: the rest of the stream
             obtain ⟨k2, hk2b, hk2⟩ := iha (pre ++ R) S pr hnd' hf1 hlen
             have s1 : runK c tbl 1 ⟨⟨(pre ++ a :: as).map some, pre.length, pr⟩ :: S, D, F, none⟩
                 = some ⟨⟨(fixpw m.replacement a.pw).map some, 0, false⟩ ::
-                    ⟨pre.map some ++ none :: as.map some, pre.length + 1, pr⟩ :: S, m.name :: D, F, none⟩ := by
+                    ⟨pre.map some ++ none :: as.map some, pre.length + 1, pr⟩ :: S, some m.name :: D, F, none⟩ := by
               simp only [runK, hpush]
-            have s3 : runK c tbl 1 ⟨⟨R.map some, R.length, false⟩ :: ⟨pre.map some ++ none :: as.map some, pre.length + 1, pr⟩ :: S, m.name :: D, F, none⟩
-                = some ⟨⟨(pre ++ (R ++ as)).map some, pre.length, pr⟩ :: S, D, F, none⟩ := by
+            have s3 : runK c tbl 1 ⟨⟨R.map some, R.length, false⟩ :: ⟨pre.map some ++ none :: as.map some, pre.length + 1, pr⟩ :: S, some m.name :: D, F, none⟩
+                = some ⟨⟨(pre ++ (R ++ as)).map some, if c.adv then pre.length + R.length else pre.length, pr⟩ :: S, D, F, none⟩ := by
               simp only [runK, hpop]
             have e1 : pre.length + R.length = (pre ++ R).length := by simp
             have e2 : pre ++ (R ++ as) = (pre ++ R) ++ as := by simp
@@ -357,7 +366,7 @@ theorem sim (c : Cfg) (hc : c.adv = false) (tbl : Table) (hT : TblOK tbl) (B : N
                 = some ⟨⟨(pre ++ E tbl (d + 1) D (a :: as)).map some, (pre ++ E tbl (d + 1) D (a :: as)).length, pr⟩ :: S, D, F, none⟩ := by
               rw [e1, e2, hk2, hE]; simp
             have hRlen : R.length ≤ B * Lb B d := by
-              have h1 := E_length tbl B hB d (m.name :: D) (fixpw m.replacement a.pw)
+              have h1 := E_length tbl B hB d (some m.name :: D) (fixpw m.replacement a.pw)
               rw [fixpw_length] at h1
               have h2 : m.replacement.length * Lb B d ≤ B * Lb B d := Nat.mul_le_mul_right _ (hB _ _ hm)
               exact Nat.le_trans h1 h2
@@ -365,17 +374,17 @@ theorem sim (c : Cfg) (hc : c.adv = false) (tbl : Table) (hT : TblOK tbl) (B : N
               rw [fixpw_length] at hk1b
               exact Nat.le_trans hk1b (Nat.mul_le_mul_right _ (hB _ _ hm))
             have hCb : Cb B (d + 1) = B * Cb B d + B * Lb B d + 3 := rfl
-            refine ⟨1 + (k1 + (1 + (R.length + k2))), by simp only [List.length_cons]; omega, ?_⟩
+            refine ⟨1 + (k1 + (1 + (k4 + k2))), by simp only [List.length_cons]; omega, ?_⟩
             exact
-              runK_add c tbl 1 _ _ _ _ s1 (runK_add c tbl k1 _ _ _ _ hk1 (runK_add c tbl 1 _ _ _ _ s3 (runK_add c tbl R.length _ _ _ _ hres s5)))
+              runK_add c tbl 1 _ _ _ _ s1 (runK_add c tbl k1 _ _ _ _ hk1 (runK_add c tbl 1 _ _ _ _ s3 (runK_add c tbl k4 _ _ _ _ hk4 s5)))
 
 /-- top level: from the state `expand(tokens)` starts in, the machine reaches (without error and without overflow)
     the state in which the only stream holds the recursive expansion and is exhausted -/
-theorem expand_top (c : Cfg) (hc : c.adv = false) (tbl : Table) (hT : TblOK tbl) (B : Nat) (hB : BodiesLe tbl B) (d : Nat) (ts : List Tok)
-    (hnd : NoDef ts) (hf : Fits tbl d ["None"] ts) (hd : d + 1 < c.lim) :
+theorem expand_top (c : Cfg) (tbl : Table) (hT : TblOK tbl) (B : Nat) (hB : BodiesLe tbl B) (d : Nat) (ts : List Tok)
+    (hnd : NoDef ts) (hf : Fits tbl d [none] ts) (hd : d + 1 < c.lim) :
     ∃ k, k ≤ ts.length * Cb B d ∧ runK c tbl k (initState ts)
-      = some ⟨[⟨(E tbl d ["None"] ts).map some, (E tbl d ["None"] ts).length, false⟩], ["None"], [], none⟩ := by
-  obtain ⟨k, hkb, hk⟩ := sim c hc tbl hT B hB [] d ["None"] ts [] [] false hnd hf (by simpa using hd)
+      = some ⟨[⟨(E tbl d [none] ts).map some, (E tbl d [none] ts).length, false⟩], [none], [], none⟩ := by
+  obtain ⟨k, hkb, hk⟩ := sim c tbl hT B hB [] d [none] ts [] [] false hnd hf (by simpa using hd)
   simp only [List.nil_append, List.length_nil] at hk
   exact ⟨k, hkb, hk⟩
 
